@@ -33,7 +33,7 @@ b("B01", FOREIGN, "\tlet mut ret_slate = slate.clone();\n\tcheck_ttl(w, &ret_sla
 b("B02", UPD, None, None, "rename unspent_total -> spendable_sum (whole file)")
 # 3. duplicate check of receive_tx extracted into a helper
 b("B03", FOREIGN,
-  "\t// Don't do this multiple times, in whichever account: whoever delivers the slate\n\t// also names the destination account\n\tlet tx = updater::retrieve_txs(&mut *w, None, Some(ret_slate.id), None, None, use_test_rng)?;\n\tfor t in &tx {\n\t\tif t.tx_type == TxLogEntryType::TxReceived {\n\t\t\treturn Err(Error::TransactionAlreadyReceived(ret_slate.id.to_string()));\n\t\t}\n\t}\n",
+  "\t// Don't do this multiple times, in whichever account: whoever delivers the slate\n\t// also names the destination account\n\tlet tx = updater::retrieve_txs(&mut *w, None, Some(ret_slate.id), None, None, use_test_rng)?;\n\tfor t in &tx {\n\t\t// (TxReverted: received, confirmed and reorganised away; it is confirmed again when\n\t\t// the transaction is mined again)\n\t\tif t.tx_type == TxLogEntryType::TxReceived || t.tx_type == TxLogEntryType::TxReverted {\n\t\t\treturn Err(Error::TransactionAlreadyReceived(ret_slate.id.to_string()));\n\t\t}\n\t\t// a payment that was cancelled here stays cancelled, it is not received again\n\t\tif t.tx_type == TxLogEntryType::TxReceivedCancelled {\n\t\t\treturn Err(Error::TransactionWasCancelled(ret_slate.id.to_string()));\n\t\t}\n\t}\n",
   "\t// Don't do this multiple times\n\trefuse_if_already_received(&mut *w, &ret_slate, use_test_rng)?;\n",
   "duplicate check extracted into a helper (helper appended to the file)")
 # 4. cancel_tx: the two refusals swapped
@@ -119,10 +119,7 @@ b("B24", TX, None, None, "rename parameter use_test_rng -> test_mode in tx.rs (w
 b("B25", UPD, None, None, "rename reverted_total -> rev_sum and locked_total -> held_sum in updater.rs")
 b("B26", FOREIGN, None, None, "rename parameter slate -> incoming in foreign.rs finalize_tx/receive_tx (word-boundary, whole file)")
 
-b("B29", FOREIGN,
-  "\tfor t in &tx {\n\t\tif t.tx_type == TxLogEntryType::TxReceived {\n\t\t\treturn Err(Error::TransactionAlreadyReceived(ret_slate.id.to_string()));\n\t\t}\n\t}\n",
-  "\tif tx.iter().any(|t| t.tx_type == TxLogEntryType::TxReceived) {\n\t\treturn Err(Error::TransactionAlreadyReceived(ret_slate.id.to_string()));\n\t}\n",
-  "duplicate test written with iter().any(..)")
+b("B29", FOREIGN, "\tfor t in &tx {\n\t\t// (TxReverted: received, confirmed and reorganised away; it is confirmed again when\n\t\t// the transaction is mined again)\n\t\tif t.tx_type == TxLogEntryType::TxReceived || t.tx_type == TxLogEntryType::TxReverted {\n\t\t\treturn Err(Error::TransactionAlreadyReceived(ret_slate.id.to_string()));\n\t\t}\n\t\t// a payment that was cancelled here stays cancelled, it is not received again\n\t\tif t.tx_type == TxLogEntryType::TxReceivedCancelled {\n\t\t\treturn Err(Error::TransactionWasCancelled(ret_slate.id.to_string()));\n\t\t}\n\t}\n", "\tif tx\n\t\t.iter()\n\t\t.any(|t| t.tx_type == TxLogEntryType::TxReceived || t.tx_type == TxLogEntryType::TxReverted)\n\t{\n\t\treturn Err(Error::TransactionAlreadyReceived(ret_slate.id.to_string()));\n\t}\n\tif tx.iter().any(|t| t.tx_type == TxLogEntryType::TxReceivedCancelled) {\n\t\treturn Err(Error::TransactionWasCancelled(ret_slate.id.to_string()));\n\t}\n", "duplicate tests written with iter().any(..)")
 b("B30", TX,
   "\tmatch tx.tx_type {\n\t\tTxLogEntryType::TxSent | TxLogEntryType::TxReceived | TxLogEntryType::TxReverted => {}\n\t\t_ => return Err(Error::TransactionNotCancellable(tx_id_string)),\n\t}\n",
   "\tif !matches!(\n\t\ttx.tx_type,\n\t\tTxLogEntryType::TxSent | TxLogEntryType::TxReceived | TxLogEntryType::TxReverted\n\t) {\n\t\treturn Err(Error::TransactionNotCancellable(tx_id_string));\n\t}\n",
@@ -137,10 +134,7 @@ b("B32", FOREIGN,
   "\t\tstore_and_forget(&mut *w, keychain_mask, &context, &sl)?;\n\t\tsl.state = SlateState::Standard3;",
   "storing the finalized tx and deleting the context extracted into a helper (appended)")
 
-b("B33", OWNER,
-  "\t\tif let Some(e) = tx.ttl_cutoff_height {\n\t\t\tif tip.0 >= e {\n\t\t\t\twallet_lock!(wallet_inst, w);\n\t\t\t\tlet parent_key_id = w.parent_key_id();\n\t\t\t\ttx::cancel_tx(&mut **w, keychain_mask, &parent_key_id, Some(tx.id), None)?;\n\t\t\t}\n\t\t}\n",
-  "\t\tlet e = match tx.ttl_cutoff_height {\n\t\t\tSome(e) => e,\n\t\t\tNone => continue,\n\t\t};\n\t\tif tip.0 < e {\n\t\t\tcontinue;\n\t\t}\n\t\twallet_lock!(wallet_inst, w);\n\t\tlet parent_key_id = w.parent_key_id();\n\t\ttx::cancel_tx(&mut **w, keychain_mask, &parent_key_id, Some(tx.id), None)?;\n",
-  "expiry walk rewritten in early-continue style")
+b("B33", OWNER, "\t\tif let Some(e) = tx.ttl_cutoff_height {\n\t\t\tif tip.0 >= e {\n\t\t\t\t// under the account the entry belongs to: log ids are per account, and the\n\t\t\t\t// active account may have been switched since the entries were collected\n\t\t\t\twallet_lock!(wallet_inst, w);\n\t\t\t\ttx::cancel_tx(\n\t\t\t\t\t&mut **w,\n\t\t\t\t\tkeychain_mask,\n\t\t\t\t\t&tx.parent_key_id,\n\t\t\t\t\tSome(tx.id),\n\t\t\t\t\tNone,\n\t\t\t\t)?;\n\t\t\t}\n\t\t}\n", "\t\tlet e = match tx.ttl_cutoff_height {\n\t\t\tSome(e) => e,\n\t\t\tNone => continue,\n\t\t};\n\t\tif tip.0 < e {\n\t\t\tcontinue;\n\t\t}\n\t\twallet_lock!(wallet_inst, w);\n\t\ttx::cancel_tx(&mut **w, keychain_mask, &tx.parent_key_id, Some(tx.id), None)?;\n", "expiry walk rewritten in early-continue style")
 
 SCAN = "libwallet/src/internal/scan.rs"
 b("B34", SCAN, "\t\t\tkeys::set_acct_path(&mut **w, keychain_mask, &label, path)?;\n\t\t\tacct_index += 1;", "\t\t\tkeys::set_acct_path(&mut **w, keychain_mask, &label, path)?;\n\t\t\tacct_index = acct_index + 1;", "counter increment written out")
@@ -179,6 +173,13 @@ b("B63", OWNER, "\t\t\t\ttx::cancel_tx(\n\t\t\t\t\t&mut **w,\n\t\t\t\t\tkeychain
 b("B64", SEL2, "\t\t\tif batch.get(id, mmr_index).is_ok() {\n\t\t\t\tcontinue;\n\t\t\t}\n", "\t\t\tmatch batch.get(id, mmr_index) {\n\t\t\t\tOk(_) => continue,\n\t\t\t\tErr(_) => {}\n\t\t\t}\n", "reservation: the on-record test written as a match")
 b("B65", OWNER, "\tif slate.state == SlateState::Invoice2 {\n\t\tlet own_invoice = updater::retrieve_txs(&mut *w, None, Some(slate.id), None, None, false)?\n\t\t\t.iter()\n\t\t\t.any(|t| t.tx_type == TxLogEntryType::TxReceived);\n\t\tif !own_invoice {\n\t\t\tlet mut batch = w.batch(keychain_mask)?;\n\t\t\tbatch.delete_private_context(slate.id.as_bytes())?;\n\t\t\tbatch.commit()?;\n\t\t}\n\t}\n\tOk(())\n}", "\tif slate.state != SlateState::Invoice2 {\n\t\treturn Ok(());\n\t}\n\tlet own_invoice = updater::retrieve_txs(&mut *w, None, Some(slate.id), None, None, false)?\n\t\t.iter()\n\t\t.any(|t| t.tx_type == TxLogEntryType::TxReceived);\n\tif !own_invoice {\n\t\tlet mut batch = w.batch(keychain_mask)?;\n\t\tbatch.delete_private_context(slate.id.as_bytes())?;\n\t\tbatch.commit()?;\n\t}\n\tOk(())\n}", "payer context deletion: early return for other states")
 b("B66", TYPES, "\t/// Fee\n\tpub fee: Option<FeeFields>,", "\t/// Fee\n\t#[serde(default)]\n\tpub fee: Option<FeeFields>,", "a serde default added to an optional field of the stored log record")
+
+SLATE = "libwallet/src/slate.rs"
+V4BIN = "libwallet/src/slate_versions/v4_bin.rs"
+b("B67", UPD, "\t\tif client.get_kernel(&excess, min_height, None)?.is_none() {\n\t\t\treverted.insert(id);\n\t\t}", "\t\tmatch client.get_kernel(&excess, min_height, None)? {\n\t\t\tNone => {\n\t\t\t\treverted.insert(id);\n\t\t\t}\n\t\t\tSome(_) => {}\n\t\t}", "reverted kernels: the answer of the node matched instead of is_none()")
+b("B68", SLATE, "\t\tif pub_nonces.len() == 0 {\n\t\t\treturn Err(Error::Commit(format!(\"Participant nonces cannot be empty\")));\n\t\t}\n", "\t\tif pub_nonces.is_empty() {\n\t\t\treturn Err(Error::Commit(format!(\"Participant nonces cannot be empty\")));\n\t\t}\n", "empty participant list tested with is_empty()")
+b("B69", OWNER, "\t\tif c.late_lock_args.is_some() {\n\t\t\treturn Err(Error::GenericError(format!(\n\t\t\t\t\"A pending transaction with id {} already exists\",", "\t\tif let Some(_) = c.late_lock_args {\n\t\t\treturn Err(Error::GenericError(format!(\n\t\t\t\t\"A pending transaction with id {} already exists\",", "invoice under a late-lock id: test written as if-let")
+b("B70", V4BIN, "\t\tif self.coms.is_some() {\n\t\t\tstatus |= 0x01\n\t\t};", "\t\tmatch self.coms {\n\t\t\tSome(_) => status |= 0x01,\n\t\t\tNone => {}\n\t\t};", "coms bit set in a match on the option")
 
 
 def _apply(mu, repo_copy):
@@ -234,7 +235,7 @@ def _apply(mu, repo_copy):
         if bid == "B32":
             src += "\nfn store_and_forget<'a, T: ?Sized, C, K>(\n\tw: &mut T,\n\tkeychain_mask: Option<&SecretKey>,\n\tcontext: &crate::types::Context,\n\tsl: &Slate,\n) -> Result<(), Error>\nwhere\n\tT: WalletBackend<'a, C, K>,\n\tC: NodeClient + 'a,\n\tK: Keychain + 'a,\n{\n\ttx::update_stored_tx(&mut *w, keychain_mask, context, sl, false)?;\n\tlet mut batch = w.batch(keychain_mask)?;\n\tbatch.delete_private_context(sl.id.as_bytes())?;\n\tbatch.commit()?;\n\tOk(())\n}\n"
         if bid == "B03":
-            src += "\nfn refuse_if_already_received<'a, T: ?Sized, C, K>(\n\tw: &mut T,\n\tslate: &Slate,\n\tuse_test_rng: bool,\n) -> Result<(), Error>\nwhere\n\tT: WalletBackend<'a, C, K>,\n\tC: NodeClient + 'a,\n\tK: Keychain + 'a,\n{\n\tlet tx = updater::retrieve_txs(\n\t\t&mut *w,\n\t\tNone,\n\t\tSome(slate.id),\n\t\tNone,\n\t\tNone,\n\t\tuse_test_rng,\n\t)?;\n\tfor t in &tx {\n\t\tif t.tx_type == TxLogEntryType::TxReceived {\n\t\t\treturn Err(Error::TransactionAlreadyReceived(slate.id.to_string()));\n\t\t}\n\t}\n\tOk(())\n}\n"
+            src += "\nfn refuse_if_already_received<'a, T: ?Sized, C, K>(\n\tw: &mut T,\n\tslate: &Slate,\n\tuse_test_rng: bool,\n) -> Result<(), Error>\nwhere\n\tT: WalletBackend<'a, C, K>,\n\tC: NodeClient + 'a,\n\tK: Keychain + 'a,\n{\n\tlet tx = updater::retrieve_txs(\n\t\t&mut *w,\n\t\tNone,\n\t\tSome(slate.id),\n\t\tNone,\n\t\tNone,\n\t\tuse_test_rng,\n\t)?;\n\tfor t in &tx {\n\t\tif t.tx_type == TxLogEntryType::TxReceived || t.tx_type == TxLogEntryType::TxReverted {\n\t\t\treturn Err(Error::TransactionAlreadyReceived(slate.id.to_string()));\n\t\t}\n\t\tif t.tx_type == TxLogEntryType::TxReceivedCancelled {\n\t\t\treturn Err(Error::TransactionWasCancelled(slate.id.to_string()));\n\t\t}\n\t}\n\tOk(())\n}\n"
     open(p, "w").write(src)
     return None
 
